@@ -838,6 +838,10 @@ func (cfg *Config) unquotedElemFields(pe *syntax.ParamExp) ([]string, bool, erro
 			syntax.UpperFirst, syntax.UpperAll,
 			syntax.LowerFirst, syntax.LowerAll:
 			// These apply to each element, like replacements.
+		case syntax.OtherParamOps:
+			if !perElemTransform(pe.Exp.Word.Lit()) {
+				return nil, false, nil
+			}
 		default:
 			return nil, false, nil
 		}
